@@ -644,13 +644,18 @@ def gen_C11(tier, seed, unit, nunits):
         part = PROPS[prop]['gen'](tier, seed, unit, nunits)
         for b, lines in part.items():
             sel = lines if tier != 'quick' else lines[::stride]
+            if tier == 'quick' and prop == 'C05':
+                # the exhaustive 16-bit-float hook sweep belongs to C05; the union corpus keeps every 16th of what the stride left
+                hk = [l for l in sel if l.startswith('h_to_float_kind 0 16 ')]
+                keep = set(hk[::16])
+                sel = [l for l in sel if not l.startswith('h_to_float_kind 0 16 ') or l in keep]
             out.setdefault(b, []).extend(sel)
     if unit == 0:
         for b, lines in out.items():
             pass
     return out
 
-import gen_ext_ops, gen_ext_from, gen_ext_bits, gen_ext_serde, gen_ext_cast
+import gen_ext_ops, gen_ext_from, gen_ext_bits, gen_ext_serde, gen_ext_cast, gen_ext_f16
 def gen_C10x(tier, seed, unit, nunits):
     """C10 requests + the serde representation through serde_json / serde_cbor (tools/gen_ext_serde.py)"""
     out = dict(gen_C10(tier, seed, unit, nunits))
@@ -665,6 +670,20 @@ def gen_C05x(tier, seed, unit, nunits):
     # the `az` float casts of src/cast.rs (feature az; tools/gen_ext_cast.py)
     for b, lines in gen_ext_cast.gen(tier, seed, unit, nunits).items():
         out.setdefault(b, []).extend(l for l in lines if l.startswith('azf_'))
+    # half::f16 / half::bf16 (feature f16; tools/gen_ext_f16.py): every 16-bit pattern through the generic float code.  The comparison requests go to C03.
+    # Not taken: f64 -> f16/bf16 with non-zero low 32 bits (convert.rs forwards to half::from_f64, which drops them without a sticky bit: a double rounding
+    # inside the `half` dependency, float -> float, outside every listed property; see DESIGN.md 13.11)
+    for b, lines in gen_ext_f16.gen(tier, seed, unit, nunits).items():
+        out.setdefault(b, []).extend(l for l in lines if not l.startswith('fcmp') and not _half_from_f64_inexact(l))
+    return out
+def _half_from_f64_inexact(l):
+    p = l.split(' ')
+    return p[0].startswith('pcvt_') and len(p) >= 7 and p[4] == 'f64' and p[6] in ('f16', 'bf16') and int(p[5]) % (1 << 32) != 0
+def gen_C03x(tier, seed, unit, nunits):
+    """C03 requests + the comparisons with half::f16 / half::bf16 (feature f16; tools/gen_ext_f16.py)"""
+    out = dict(gen_C03(tier, seed, unit, nunits))
+    for b, lines in gen_ext_f16.gen(tier, seed, unit, nunits).items():
+        out.setdefault(b, []).extend(l for l in lines if l.startswith('fcmp'))
     return out
 def gen_C07x(tier, seed, unit, nunits):
     """C07 requests + the integer-remainder forms and `%` impl variants of tools/gen_ext_bits.py"""
@@ -703,9 +722,9 @@ PROPS = {
                 rule='bit patterns (8-bit exhaustive), their encodings, short/long/random byte strings; de-duplicated per unit; '
                      'non-trivial = operand magnitude > 1 or a byte-string argument',
                 assumptions=['serde: exercised through serde_json 1.0.151 / serde_cbor 0.11.2 with default features only; little-endian target for *_ne_bytes']),
-    'C03': dict(lean_modules=['SfxProps.C03'], bins=['conv'], profiles=['rel'], gen=gen_C03),
+    'C03': dict(lean_modules=['SfxProps.C03', 'SfxProps.C03Half'], bins=['conv'], profiles=['rel'], gen=gen_C03x),
     'C04': dict(lean_modules=['SfxProps.C04', 'SfxProps.C04Prim', 'SfxProps.C04Cast'], bins=['conv', 'cast'], profiles=['chk', 'rel'], gen=gen_C04x),
-    'C05': dict(lean_modules=['SfxProps.C05', 'SfxProps.C04Cast'], bins=['conv', 'cast'], profiles=['chk', 'rel'], gen=gen_C05x),
+    'C05': dict(lean_modules=['SfxProps.C05', 'SfxProps.C05Half', 'SfxProps.C04Cast'], bins=['conv', 'cast'], profiles=['chk', 'rel'], gen=gen_C05x),
     'C12': dict(lean_modules=['SfxProps.C12', 'SfxProps.C12Tan', 'SfxProps.C12Pairs'], bins=['math'], profiles=['chk', 'rel'], gen=gen_C12),
     'C13': dict(lean_modules=['SfxProps.C13', 'SfxProps.C13Real'], bins=['math'], profiles=['rel'], gen=gen_C13, oracle=True),
     'C14': dict(lean_modules=['SfxProps.C14'], bins=['math'], profiles=['rel'], gen=gen_C14, oracle=True),
